@@ -250,3 +250,52 @@ Example order_example :
                {| d_names := ["T"%string]; d_deps := [] |} ] = Some [2; 1; 0].
 Proof. vm_compute. reflexivity. Qed.
 
+
+(* ---------------------------------------------------------------- errors *)
+Section Errors.
+Variables X E : Type.
+
+(* without a foreign panic the translation of a package ends with the
+   definitions of every declaration that translated and one error per
+   declaration that did not, in source order *)
+Theorem no_crash_gives_result (rs : list (tres X E)) :
+  (forall r, In r rs -> is_crash r = false) ->
+  exists groups errs, translate_decls rs = Some (groups, errs) /\
+    length groups = length rs /\
+    (forall i r, nth_error rs i = Some r -> nth_error groups i = Some (defs_of r)) /\
+    length errs = length (filter (fun r => match r with TErr _ => true | _ => false end) rs).
+Proof.
+  intros Hn. unfold translate_decls.
+  assert (Hex : existsb is_crash rs = false).
+  { apply Bool.not_true_iff_false. intros H. apply existsb_exists in H as (r & Hr & Hc). rewrite (Hn r Hr) in Hc. discriminate. }
+  rewrite Hex. eexists _, _. split; [reflexivity|]. split; [apply map_length|]. split.
+  - intros i r H. rewrite nth_error_map, H. reflexivity.
+  - clear. induction rs as [|[d|e|] rs' IH]; cbn; auto.
+Qed.
+
+(* an error in one declaration does not stop the others: what declaration i
+   contributes depends on declaration i alone *)
+Theorem declarations_independent (rs1 rs2 : list (tres X E)) g1 e1 g2 e2 i :
+  translate_decls rs1 = Some (g1, e1) -> translate_decls rs2 = Some (g2, e2) ->
+  nth_error rs1 i = nth_error rs2 i -> nth_error g1 i = nth_error g2 i.
+Proof.
+  unfold translate_decls. destruct (existsb is_crash rs1); [discriminate|]. destruct (existsb is_crash rs2); [discriminate|].
+  intros [= <- _] [= <- _] H. rewrite !nth_error_map, H. reflexivity.
+Qed.
+
+(* success (exit status 0) exactly when every declaration translated *)
+Theorem no_errors_iff_all_ok (rs : list (tres X E)) g e :
+  translate_decls rs = Some (g, e) -> (e = [] <-> forall r, In r rs -> exists d, r = TOk d).
+Proof.
+  unfold translate_decls. destruct (existsb is_crash rs) eqn:Ex; [discriminate|]. intros [= _ <-].
+  assert (Hn : forall r, In r rs -> is_crash r = false).
+  { intros r Hr. destruct (is_crash r) eqn:Ec; [|reflexivity]. exfalso.
+    assert (existsb is_crash rs = true) by (apply existsb_exists; eauto). congruence. }
+  clear Ex. induction rs as [|r rs' IH]; cbn.
+  - split; [intros _ r []|reflexivity].
+  - assert (IH' := IH (fun r Hr => Hn r (or_intror Hr))). destruct r as [d|err|].
+    + cbn. rewrite IH'. split; [intros H r [<-|Hr]; eauto|intros H r Hr; apply H; auto].
+    + cbn. split; [discriminate|]. intros H. destruct (H (TErr err) (or_introl eq_refl)) as [d Hd]. discriminate.
+    + specialize (Hn TCrash (or_introl eq_refl)). discriminate.
+Qed.
+End Errors.
